@@ -19,6 +19,11 @@ chk("C15",
     "Trusted: TLC and CommunityModules Bitwise, cffi/gcc rebuild. Alignment reached through the cffi lib call (the wrapper always allocates an aligned buffer).",
     "TLA+ spec (XorMask.tla) model-checked with TLC; TLC batch trace validation recomputing every XOR of recorded process() calls for all implementations", "5/C15")
 
+chk("C02",
+    "spec/WsRecv.tla is the RFC 6455 receiver (header rule cascade, fragmentation automaton, control frames, close payload rules, UTF-8 fail-fast, fail policy) written from the RFC with two actions per frame (header complete / payload complete); TLC checks its safety properties over all Header/Payload sequences of a 704-header x 14-payload alphabet; every one of the 65 536 first-two-octet values is executed against a fresh real endpoint per receiver context (role x failByDrop x compression x open/closing/inside; 3 contexts quick, all 24 on both frameworks thorough) plus generated near-valid frame sequences, each in 2-4 read segmentations, and TLC (WsRecvTrace.tla) recomputes the verdict for every recorded step, decoding written frame headers itself.",
+    "Trusted: TLC; the structural frame splitter of the harness; zlib for minimal deflate completions. Drop timing after a close frame was sent, pong replies while CLOSING and close codes 1012-1014 are left open by the spec (RFC silent).",
+    "TLA+ spec (WsRecv.tla) model-checked with TLC; exhaustive decision-table execution against the real protocol classes with TLC batch trace validation (WsRecvTrace.tla)", "5/C02")
+
 NA_ALL = ["C%02d" % i for i in range(1, 21)]
 for p in NA_ALL:
     if p not in CHECKS:
